@@ -116,10 +116,10 @@ var c19Corpus = func() [][]byte {
 		[]byte(`{"perm_channels":[` + ch("transfer", "channel-2") + `],"perm_channels":[` + ch("transfer", "channel-3") + `]}`), // duplicate key, different values
 		[]byte(`{"perm_channels":[` + ch("transfer", "channel-0") + `],"Perm_channels":[` + ch("transfer", "channel-2") + `]}`), // exact key first, another casing after it (the order of the keys matters: the later one decides)
 		[]byte(`{"perm_channels":[` + ch("transfer", "channel-1") + `],"PERM_CHANNELS":[` + ch("transfer", "channel-3") + `]}`),
-		[]byte(`{"z":0,"perm_channels":[` + ch("transfer", "channel-1") + `,` + ch("transfer", "channel-0") + `],"a":1}`),      // unknown keys around it, list not in sorted order
-		[]byte(`{"perm_channels":[{"PORT_ID":"transfer","Channel_Id":"channel-3"}]}`),                                           // cased inner keys
-		[]byte(`{"perm_channels":[{"port_id":"transfer"}]}`),                                                                    // missing channel id
-		[]byte(`{"perm_channels":[{"port_id":7,"channel_id":"channel-0"}]}`),                                                    // wrong type
+		[]byte(`{"z":0,"perm_channels":[` + ch("transfer", "channel-1") + `,` + ch("transfer", "channel-0") + `],"a":1}`), // unknown keys around it, list not in sorted order
+		[]byte(`{"perm_channels":[{"PORT_ID":"transfer","Channel_Id":"channel-3"}]}`),                                     // cased inner keys
+		[]byte(`{"perm_channels":[{"port_id":"transfer"}]}`),                                                              // missing channel id
+		[]byte(`{"perm_channels":[{"port_id":7,"channel_id":"channel-0"}]}`),                                              // wrong type
 		[]byte(`[{"port_id":"transfer","channel_id":"channel-0"}]`),
 		[]byte(`perm_channels: transfer/channel-0`),
 		[]byte("{\"perm_channels\":[{\"port_id\":\"trans\xfffer\",\"channel_id\":\"channel-0\"}]}"), // invalid UTF-8
@@ -130,10 +130,10 @@ var c19Corpus = func() [][]byte {
 		[]byte(`{"nested":{"perm_channels":[` + ch("transfer", "channel-0") + `]}}`),
 		[]byte(`null`),
 		[]byte(`42`),
-		[]byte(`{"perm\u005fchannels":[` + ch("transfer", "channel-1") + `]}`),                          // the key spelled with a JSON escape: still the key perm_channels
-		[]byte(`{"perm_channels":[{"port\u005fid":"transfer","channel_id":"channel-3"}]}`),               // escaped inner key
-		[]byte(`{"perm_channels":[{"port_id":"tr\u0061nsfer","channel_id":"ch\u0061nnel-4"}]}`),          // escaped values: transfer / channel-4
-		[]byte("{ \"perm_channels\" :\n\t[ " + ch("transfer", "channel-0") + " ] }"),                     // generous white space
+		[]byte(`{"perm\u005fchannels":[` + ch("transfer", "channel-1") + `]}`),                  // the key spelled with a JSON escape: still the key perm_channels
+		[]byte(`{"perm_channels":[{"port\u005fid":"transfer","channel_id":"channel-3"}]}`),      // escaped inner key
+		[]byte(`{"perm_channels":[{"port_id":"tr\u0061nsfer","channel_id":"ch\u0061nnel-4"}]}`), // escaped values: transfer / channel-4
+		[]byte("{ \"perm_channels\" :\n\t[ " + ch("transfer", "channel-0") + " ] }"),            // generous white space
 	}
 }()
 
